@@ -1,7 +1,394 @@
 import M3d.Basic
-/-! Line-protocol handler for C03. Core-only. (stub) -/
-namespace M3d.Drv.C03
+import M3d.Model.Bounded
+/-!
+Line-protocol handler for C03 (core-only).
 
-def handleAll (ws : List String) : Option String := none
+    c03 tree <q|f> <expr> | <ntab> <tab entries> | <npts> <points>
+        -> "<dim> lo.. hi.. <valid> <answers>"    (answers: one char per point: 0, 1 or m)
+    c03 cab <f> axis n0 n1 n2 sign                 -> circleAxisBound
+    c03 cyl|cone|torus|capsule <f> params          -> Min()/Max()
+    c03 shell ...                                  -> "ok"  (the property's requirement)
+
+All numbers cross the boundary as exact rationals `num/den`; mode `q` runs the model at `Rat`
+(the instance the theorems cover), mode `f` at `Float` (same operations, same order as the Go code).
+Opaque leaves (`orc`, SDFs, colliders, metaball fields, height maps) answer from the table of the
+real implementation's answers recorded by the harness; a query the table does not have is answered
+with a default, the case is evaluated with both defaults and `m` is printed if the answer depends
+on it.
+-/
+namespace M3d.Drv.C03
+open M3d M3d.Bd
+
+/-- What the generic evaluator needs to know about the scalar type. -/
+structure Num (α : Type) where
+  parse : String → Option α
+  render : α → String
+  sq : α → α
+  eps : α
+  fall : α → α
+  big : α
+
+def floatOfRat (q : Rat) : Float :=
+  let n := q.num
+  let a := Float.ofNat n.natAbs
+  let v := a / Float.ofNat q.den
+  if n < 0 then -v else v
+
+def ratOfFloat (x : Float) : Rat := (ratOfBits x.toBits).getD 0
+
+/-- exact square root of a rational when it has one, otherwise a lower approximation (mode `q`
+never takes the root of a non-square). -/
+def ratSqrt (q : Rat) : Rat :=
+  if q ≤ 0 then 0 else
+    let n := q.num.natAbs
+    let d := q.den
+    let sn := Nat.sqrt n
+    let sd := Nat.sqrt d
+    if sn * sn = n ∧ sd * sd = d then ((sn : Int) : Rat) / ((sd : Int) : Rat)
+    else ((Nat.sqrt (n * d * 1048576 * 1048576) : Int) : Rat) / (((d * 1048576 : Nat) : Int) : Rat)
+
+def epsRat : Rat := ratOfFloat 1e-8
+
+def numQ : Num Rat :=
+  { parse := parseRat, render := showRat, sq := ratSqrt, eps := epsRat,
+    fall := fun r => if r ≤ 0 then 1000000000000000000000000000000 else 1 / ((r * r) * (r * r)),
+    big := 1000000000000000000000000000000 }
+
+def numF : Num Float :=
+  { parse := fun s => (parseRat s).map floatOfRat,
+    render := fun x => if x.isNaN then "nan" else if x.isInf then (if x > 0 then "+inf" else "-inf") else showRat (ratOfFloat x),
+    sq := Float.sqrt, eps := 1e-8,
+    fall := fun r => if r ≤ 0 then (1.0 / 0.0) else let r2 := r * r; 1 / (r2 * r2),
+    big := 1e300 }
+
+section Generic
+variable {α : Type} [Add α] [Sub α] [Mul α] [Div α] [Neg α] [LE α] [LT α]
+  [DecidableLE α] [DecidableLT α] [OfNat α 0] [OfNat α 1] [BEq α]
+
+/-- One recorded answer of the real implementation: tag, leaf id, point, extra argument, value. -/
+structure Entry (α : Type) where
+  tag : String
+  id : Nat
+  p : Pt α
+  r : α
+  v : α
+
+def ptEq (a b : Pt α) : Bool := a 0 == b 0 && a 1 == b 1 && a 2 == b 2
+
+def lookup (tab : List (Entry α)) (tag : String) (id : Nat) (p : Pt α) (r : α) : Option α :=
+  (tab.find? fun e => e.tag == tag && e.id == id && ptEq e.p p && e.r == r).map (·.v)
+
+def lookupB (tab : List (Entry α)) (dflt : Bool) (tag : String) (id : Nat) (p : Pt α) (r : α) : Bool :=
+  match lookup tab tag id p r with
+  | some v => (0 : α) < v
+  | none => dflt
+
+def lookupV (N : Num α) (tab : List (Entry α)) (dflt : Bool) (tag : String) (id : Nat) (p : Pt α) : α :=
+  match lookup tab tag id p 0 with
+  | some v => v
+  | none => if dflt then N.big else -N.big
+
+abbrev P (β : Type) := List String → Option (β × List String)
+
+def pNum (N : Num α) : P α
+  | w :: ws => (N.parse w).map (·, ws)
+  | [] => none
+
+def pNat : P Nat
+  | w :: ws => w.toNat?.map (·, ws)
+  | [] => none
+
+def pPt (N : Num α) : P (Pt α) := fun ws => do
+  let (x, ws) ← pNum N ws
+  let (y, ws) ← pNum N ws
+  let (z, ws) ← pNum N ws
+  pure (mk3 x y z, ws)
+
+def pBox (N : Num α) : P (Box α) := fun ws => do
+  let (lo, ws) ← pPt N ws
+  let (hi, ws) ← pPt N ws
+  pure (⟨lo, hi⟩, ws)
+
+def pDim : P Bool
+  | "3" :: ws => some (true, ws)
+  | "2" :: ws => some (false, ws)
+  | _ => none
+
+def pAxis : P (Fin 3)
+  | "0" :: ws => some (0, ws)
+  | "1" :: ws => some (1, ws)
+  | "2" :: ws => some (2, ws)
+  | _ => none
+
+def pOptNum (N : Num α) : P (Option α)
+  | "-inf" :: ws => some (none, ws)
+  | "+inf" :: ws => some (none, ws)
+  | ws => (pNum N ws).map fun (v, ws) => (some v, ws)
+
+def pMany {β : Type} (p : P β) : Nat → P (List β)
+  | 0, ws => some ([], ws)
+  | n + 1, ws => do
+      let (x, ws) ← p ws
+      let (xs, ws) ← pMany p n ws
+      pure (x :: xs, ws)
+
+def pXf (N : Num α) : P (Xf1 α)
+  | "tr" :: ws => do let (o, ws) ← pPt N ws; pure (.translate o, ws)
+  | "sc" :: ws => do let (s, ws) ← pNum N ws; pure (.scale s, ws)
+  | "vs" :: ws => do let (v, ws) ← pPt N ws; pure (.vecScale v, ws)
+  | "m3" :: ws => do
+      let (m, ws) ← pMany (pNum N) 9 ws
+      let (mi, ws) ← pMany (pNum N) 9 ws
+      match m, mi with
+      | [a0, a1, a2, a3, a4, a5, a6, a7, a8], [b0, b1, b2, b3, b4, b5, b6, b7, b8] =>
+        pure (.matrix3 ⟨a0, a1, a2, a3, a4, a5, a6, a7, a8⟩ ⟨b0, b1, b2, b3, b4, b5, b6, b7, b8⟩, ws)
+      | _, _ => none
+  | "m2" :: ws => do
+      let (m, ws) ← pMany (pNum N) 8 ws
+      match m with
+      | [a, b, c, d, ia, ib, ic, id] => pure (.matrix2 a b c d ia ib ic id, ws)
+      | _ => none
+  | _ => none
+
+def pSDFL (N : Num α) (tab : List (Entry α)) (dflt : Bool) : P (SDFL α)
+  | "sdfl" :: ws => do
+      let (d3, ws) ← pDim ws
+      let (box, ws) ← pBox N ws
+      let (id, ws) ← pNat ws
+      pure (⟨d3, box, fun p => lookupV N tab dflt "v" id p⟩, ws)
+  | _ => none
+
+def pColL (N : Num α) (tab : List (Entry α)) (dflt : Bool) : P (ColL α)
+  | "coll" :: ws => do
+      let (d3, ws) ← pDim ws
+      let (box, ws) ← pBox N ws
+      let (id, ws) ← pNat ws
+      pure (⟨d3, box, fun p => lookupB tab dflt "i" id p 0, fun p r => lookupB tab dflt "s" id p r⟩, ws)
+  | _ => none
+
+def pMBL (N : Num α) (tab : List (Entry α)) (dflt : Bool) : P (MBL α)
+  | "mbl" :: ws => do
+      let (d3, ws) ← pDim ws
+      let (box, ws) ← pBox N ws
+      let (id, ws) ← pNat ws
+      let (nf, ws) ← pNat ws
+      let (fs, ws) ← pMany (pNum N) nf ws
+      pure (⟨d3, box, fun p => lookupV N tab dflt "v" id p, fun d => fs.foldl (fun d k => d * k) d⟩, ws)
+  | _ => none
+
+partial def pRect (N : Num α) : P (RectTree α)
+  | "e" :: ws => some (.empty, ws)
+  | "s" :: ws => do let (b, ws) ← pBox N ws; pure (.single b.lo b.hi, ws)
+  | "n" :: ws => do
+      let (b, ws) ← pBox N ws
+      let (ax, ws) ← pAxis ws
+      let (c, ws) ← pNum N ws
+      let (l, ws) ← pRect N ws
+      let (r, ws) ← pRect N ws
+      pure (.node b ax c l r, ws)
+  | _ => none
+
+partial def pExpr (N : Num α) (tab : List (Entry α)) (dflt : Bool) : P (SolidExpr α)
+  | "rect" :: ws => do
+      let (d3, ws) ← pDim ws
+      let (b, ws) ← pBox N ws
+      pure (.prim (rectS d3 b.lo b.hi), ws)
+  | "sph" :: ws => do
+      let (d3, ws) ← pDim ws
+      let (c, ws) ← pPt N ws
+      let (r, ws) ← pNum N ws
+      pure (.prim (sphereS d3 c r), ws)
+  | "orc" :: ws => do
+      let (d3, ws) ← pDim ws
+      let (b, ws) ← pBox N ws
+      let (id, ws) ← pNat ws
+      pure (.prim ⟨d3, b, fun p => lookupB tab dflt "b" id p 0⟩, ws)
+  | "chk" :: ws => do
+      let (b, ws) ← pBox N ws
+      let (e, ws) ← pExpr N tab dflt ws
+      pure (.checked b e, ws)
+  | "cache" :: ws => do let (e, ws) ← pExpr N tab dflt ws; pure (.cache e, ws)
+  | "join" :: ws => do
+      let (n, ws) ← pNat ws
+      match ← pMany (pExpr N tab dflt) n ws with
+      | (a :: rest, ws) => pure (.joined a rest, ws)
+      | _ => none
+  | "inter" :: ws => do
+      let (n, ws) ← pNat ws
+      match ← pMany (pExpr N tab dflt) n ws with
+      | (a :: rest, ws) => pure (.inter a rest, ws)
+      | _ => none
+  | "sub" :: ws => do
+      let (a, ws) ← pExpr N tab dflt ws
+      let (b, ws) ← pExpr N tab dflt ws
+      pure (.sub a b, ws)
+  | "stack" :: ws => do
+      let (n, ws) ← pNat ws
+      match ← pMany (pExpr N tab dflt) n ws with
+      | (a :: rest, ws) => pure (.stack a rest, ws)
+      | _ => none
+  | "stacked" :: ws => do
+      let (n, ws) ← pNat ws
+      match ← pMany (pExpr N tab dflt) n ws with
+      | (a :: rest, ws) => pure (.stacked a rest, ws)
+      | _ => none
+  | "xf" :: ws => do
+      let (k, ws) ← pNat ws
+      let (ts, ws) ← pMany (pXf N) k ws
+      let (e, ws) ← pExpr N tab dflt ws
+      pure (.xform ts e, ws)
+  | "prof" :: ws => do
+      let (e, ws) ← pExpr N tab dflt ws
+      let (a, ws) ← pNum N ws
+      let (b, ws) ← pNum N ws
+      pure (.profile e a b, ws)
+  | "cross" :: ws => do
+      let (e, ws) ← pExpr N tab dflt ws
+      let (ax, ws) ← pAxis ws
+      let (v, ws) ← pNum N ws
+      pure (.cross e ax v, ws)
+  | "rev" :: ws => do
+      let (e, ws) ← pExpr N tab dflt ws
+      let (ax, ws) ← pPt N ws
+      pure (.revolve e ax, ws)
+  | "clamp" :: ws => do
+      let (e, ws) ← pExpr N tab dflt ws
+      let (ax, ws) ← pAxis ws
+      let (mn, ws) ← pOptNum N ws
+      let (mx, ws) ← pOptNum N ws
+      pure (.clamp e ax mn mx, ws)
+  | "sdf" :: ws => do
+      let (s, ws) ← pSDFL N tab dflt ws
+      let (o, ws) ← pNum N ws
+      pure (.sdf s o, ws)
+  | "smooth" :: ws => do
+      let (r, ws) ← pNum N ws
+      let (n, ws) ← pNat ws
+      match ← pMany (pSDFL N tab dflt) n ws with
+      | (a :: rest, ws) => pure (.smooth r a rest, ws)
+      | _ => none
+  | "inset" :: ws => do
+      let (c, ws) ← pColL N tab dflt ws
+      let (i, ws) ← pNum N ws
+      pure (.inset c i, ws)
+  | "hollow" :: ws => do
+      let (c, ws) ← pColL N tab dflt ws
+      let (r, ws) ← pNum N ws
+      pure (.hollow c r, ws)
+  | "mb" :: ws => do
+      let (rt, ws) ← pNum N ws
+      let (n, ws) ← pNat ws
+      match ← pMany (pMBL N tab dflt) n ws with
+      | (a :: rest, ws) =>
+        let box := unionBoxes a.box (rest.map (·.box))
+        let out ← mbOutset (valueForOutset N.fall (a :: rest)) (N.fall rt) (boxDiag N.sq a.d3 box) N.eps
+        pure (.metaball N.fall rt out a rest, ws)
+      | _ => none
+  | "poly" :: ws => do
+      let (d3, ws) ← pDim ws
+      let (b, ws) ← pBox N ws
+      let (n, ws) ← pNat ws
+      let (cs, ws) ← pMany (fun ws => do
+        let (nm, ws) ← pPt N ws
+        let (mx, ws) ← pNum N ws
+        pure ((nm, mx), ws)) n ws
+      pure (.polytope d3 b cs, ws)
+  | "rset" :: ws => do let (t, ws) ← pRect N ws; pure (.rectSet t, ws)
+  | "hm" :: ws => do
+      let (lo, ws) ← pPt N ws
+      let (hi, ws) ← pPt N ws
+      let (a, ws) ← pNum N ws
+      let (b, ws) ← pNum N ws
+      let (id, ws) ← pNat ws
+      pure (.heightMap lo hi a b (fun p => lookupB tab dflt "b" id p 0), ws)
+  | _ => none
+
+def pEntry (N : Num α) : P (Entry α)
+  | tag :: ws => do
+      let (id, ws) ← pNat ws
+      let (p, ws) ← pPt N ws
+      let (r, ws) ← pNum N ws
+      let (v, ws) ← pNum N ws
+      pure (⟨tag, id, p, r, v⟩, ws)
+  | [] => none
+
+def showPt (N : Num α) (d3 : Bool) (p : Pt α) : String :=
+  if d3 then s!"{N.render (p 0)} {N.render (p 1)} {N.render (p 2)}" else s!"{N.render (p 0)} {N.render (p 1)}"
+
+def showBox (N : Num α) (d3 : Bool) (b : Box α) : String := s!"{showPt N d3 b.lo} {showPt N d3 b.hi}"
+
+/-- `tree`: bounds, `BoundsValid`'s order test, and `Contains` at every point. -/
+def runTree (N : Num α) (ws : List String) : Option String := do
+  -- split at the two "|" separators
+  let exprToks := ws.takeWhile (· ≠ "|")
+  let rest := (ws.dropWhile (· ≠ "|")).drop 1
+  let (ntab, rest) ← pNat rest
+  let (tab, rest) ← pMany (pEntry N) ntab rest
+  let rest ← match rest with | "|" :: r => some r | _ => none
+  let (npts, rest) ← pNat rest
+  let (pts, rest) ← pMany (pPt N) npts rest
+  if !rest.isEmpty then none
+  let (e0, r0) ← pExpr N tab false exprToks
+  let (e1, _) ← pExpr N tab true exprToks
+  if !r0.isEmpty then none
+  let s0 := e0.eval N.sq N.eps
+  let s1 := e1.eval N.sq N.eps
+  let answers := pts.map fun p =>
+    let a := s0.f p
+    let b := s1.f p
+    if a != b then "m" else boolStr a
+  pure s!"{if s0.d3 then 3 else 2} {showBox N s0.d3 s0.box} {boolStr (boxValid s0.d3 s0.box)} {String.join answers}"
+
+/-- bounds of the sqrt-based primitives (mode `f`: bit-for-bit) -/
+def runPrim (N : Num α) (kind : String) (ws : List String) : Option String := do
+  match kind with
+  | "cab" =>
+    let (ax, ws) ← pAxis ws
+    let (n, ws) ← pPt N ws
+    let (sgn, _) ← pNum N ws
+    pure (N.render (circleAxisBound N.sq N.eps ax n sgn))
+  | "cyl" =>
+    let (p1, ws) ← pPt N ws
+    let (p2, ws) ← pPt N ws
+    let (r, _) ← pNum N ws
+    pure (showBox N true (cylinderBox N.sq N.eps p1 p2 r))
+  | "cone" =>
+    let (tip, ws) ← pPt N ws
+    let (base, ws) ← pPt N ws
+    let (r, _) ← pNum N ws
+    pure (showBox N true (coneBox N.sq N.eps tip base r))
+  | "torus" =>
+    let (c, ws) ← pPt N ws
+    let (ax, ws) ← pPt N ws
+    let (o, ws) ← pNum N ws
+    let (i, _) ← pNum N ws
+    pure (showBox N true (torusBox N.sq N.eps c ax o i))
+  | "capsule" =>
+    let (d3, ws) ← pDim ws
+    let (p1, ws) ← pPt N ws
+    let (p2, ws) ← pPt N ws
+    let (r, _) ← pNum N ws
+    pure (showBox N d3 (capsuleBox p1 p2 r))
+  | "sphere" =>
+    let (d3, ws) ← pDim ws
+    let (c, ws) ← pPt N ws
+    let (r, _) ← pNum N ws
+    pure (showBox N d3 (sphereS d3 c r).box)
+  | _ => none
+
+def handleWith (N : Num α) : List String → Option String
+  | "tree" :: ws => runTree N ws
+  | kind :: ws => runPrim N kind ws
+  | [] => none
+
+end Generic
+
+def handleAll (ws : List String) : Option String :=
+  match ws with
+  -- the property's requirement for an opaque leaf: bounds valid, every shell point rejected
+  | "shell" :: _ => some "ok"
+  | kind :: "q" :: rest => handleWith numQ (kind :: rest)
+  | kind :: "f" :: rest => handleWith numF (kind :: rest)
+  | _ => none
 
 end M3d.Drv.C03
